@@ -28,6 +28,13 @@ class RunLog:
         self.crash_k: int | None = None
         self.crash_in = "run"  # "run": inside the k-th execution; "jac": inside the k-th Jacobian computation
         self.n_jac = 0
+        self.database = None  # the problem's database (read only): logged at every crash point
+
+    def db_names(self):
+        """The content of the database right now: [[point, [output names]], ...] in insertion order."""
+        if self.database is None:
+            return None
+        return [[flt(x.unwrap()), list(outs)] for x, outs in self.database.items()]
 
     def open(self, path: str, crash_k: int | None, crash_in: str = "run") -> None:
         self.fh = open(path, "a")  # noqa: SIM115
@@ -72,7 +79,8 @@ class PolyDisc(Discipline):
     def _run(self, input_data):
         LOG.n_exec += 1
         k = LOG.n_exec
-        LOG.write({"ev": "call", "d": self.name, "k": k, "in": {n: flt(input_data[n]) for n in self.in_names}})
+        LOG.write({"ev": "call", "d": self.name, "k": k, "in": {n: flt(input_data[n]) for n in self.in_names},
+                   "db": LOG.db_names()})
         if LOG.crash_in == "run" and LOG.crash_k is not None and k == LOG.crash_k:
             os._exit(1)
         u = self._u(input_data)
@@ -89,7 +97,7 @@ class PolyDisc(Discipline):
 
     def _compute_jacobian(self, input_names=(), output_names=()):
         LOG.n_jac += 1
-        LOG.write({"ev": "jac", "d": self.name, "k": LOG.n_jac})
+        LOG.write({"ev": "jac", "d": self.name, "k": LOG.n_jac, "db": LOG.db_names()})
         if LOG.crash_in == "jac" and LOG.crash_k is not None and LOG.n_jac == LOG.crash_k:
             os._exit(1)
         u = self._u(self.io.data)
